@@ -2,6 +2,7 @@ package rules
 
 import (
 	"fmt"
+	"go/token"
 	"go/types"
 	"path/filepath"
 	"sort"
@@ -38,6 +39,10 @@ func c20(c *Ctx) {
 	c20crash(c)
 	c20nil(c)
 	c20fields(c)
+	c20scanString(c)
+	c20fullLists(c)
+	c20tokens(c)
+	c20index(c)
 }
 
 // nodeish: *TokenNode, a type with a Format method from package ast, an interface of package ast, or a slice of those.
@@ -586,4 +591,435 @@ func c20fields(c *Ctx) {
 	o := c.R.Check(len(missing) == 0 && total >= 60, rule, goctlParser+"⇄"+goctlAst, "every child field an ast node's Format can print is assigned by the parser somewhere (a field the parser stops filling silently disappears from the formatted text)", "-",
 		fmt.Sprintf("never assigned in package parser: %v (%d child fields in total)", missing, total), missing, total)
 	o.Sites = total
+}
+
+// c20scanString: the string scanner examines every rune it consumes. scanString serves both "…" and raw
+// strings; a rune swallowed without being compared with the closing delimiter (and with end of input) lets a
+// valid string literal run on past its end — format.Source then fails on a valid source.
+func c20scanString(c *Ctx) {
+	rule := "C20.R5"
+	f := c.fn(rule, goctlScan, "(*Scanner).scanString")
+	if f == nil {
+		return
+	}
+	delim := f.Params[1]
+	ps := c.paths(rule, f, px.Config{MaxVisits: 3, MaxPaths: 100000})
+	isRead := func(e *px.Event) bool {
+		return e.Kind == px.EvCall && e.Call.Static != nil && e.Call.Static.Name() == "readRune"
+	}
+	cmpCh := func(e *px.Event, with func(*px.Sym) bool) bool {
+		if e.Kind != px.EvBranch {
+			return false
+		}
+		cn := e.Cond.Strip(true)
+		if cn.Kind != px.KBinOp || (cn.Op != token.EQL && cn.Op != token.NEQ) {
+			return false
+		}
+		isCh := func(x *px.Sym) bool { return px.IsFieldLoad(x, "ch", nil) }
+		return (isCh(cn.X) && with(cn.Y)) || (isCh(cn.Y) && with(cn.X))
+	}
+	pairs := 0
+	held := c.forall(rule, goctlScan+".(*Scanner).scanString", "between two consecutive readRune calls the current rune is compared with the closing delimiter and with end of input (no rune is consumed unexamined)", f, ps, func(p *px.Path) (bool, string) {
+		var last *px.Event
+		sawDelim, sawEOF := false, false
+		for i := range p.Events {
+			e := &p.Events[i]
+			switch {
+			case isRead(e):
+				if last != nil {
+					pairs++
+					if !sawDelim || !sawEOF {
+						return false, "a rune is consumed without having been compared with the closing delimiter / end of input: a literal whose last rune is that one is not closed"
+					}
+				}
+				last, sawDelim, sawEOF = e, false, false
+			case cmpCh(e, func(y *px.Sym) bool { return isParam(y, delim) }):
+				sawDelim = true
+				if (e.Cond.Strip(true).Op == token.EQL) == e.Taken {
+					sawEOF = true // it is the delimiter: nothing else to ask
+				}
+			case cmpCh(e, func(y *px.Sym) bool { k, ok := constInt(p, y); return ok && k == 0 }):
+				sawEOF = true
+			}
+		}
+		return true, ""
+	})
+	if held && pairs == 0 {
+		c.R.Undecided(rule, goctlScan+".(*Scanner).scanString#reach", "consecutive readRune calls are analysed", "no path with two readRune calls")
+	}
+}
+
+// c20fullLists: a list of child nodes that a Format method writes from a LOCAL slice must be the complete list:
+// every iteration of the loop that builds the local slice appends (no `continue`/condition skips an element).
+// Writing from a filtered copy silently drops the skipped children from the formatted text.
+func c20fullLists(c *Ctx) {
+	rule := "C20.R1b"
+	pk := c.P.Pkg(goctlAst)
+	if pk == nil {
+		c.R.Undecided(rule, goctlAst, "anchor resolves", "package not loaded")
+		return
+	}
+	var bad []string
+	direct, local := 0, 0
+	for _, fn := range c.P.AllFuncs(goctlAst) {
+		if fn.Name() != "Format" || fn.Signature.Recv() == nil {
+			continue
+		}
+		loops := naturalLoops(fn)
+		inLoop := func(b *ssa.BasicBlock) map[*ssa.BasicBlock]bool {
+			var best map[*ssa.BasicBlock]bool
+			for _, l := range loops {
+				if l[b] && (best == nil || len(l) < len(best)) {
+					best = l
+				}
+			}
+			return best
+		}
+		for _, b := range fn.Blocks {
+			for _, ins := range b.Instrs {
+				ia, ok := ins.(*ssa.IndexAddr)
+				if !ok || inLoop(b) == nil {
+					continue
+				}
+				sl, ok := ia.X.Type().Underlying().(*types.Slice)
+				if !ok || !c20nodeish(sl.Elem(), pk.Types) {
+					continue
+				}
+				// where does the ranged slice come from?
+				if isFieldChain(ia.X, fn.Params[0]) {
+					direct++
+					continue
+				}
+				// a local list: collect the appends that feed it
+				seen := map[ssa.Value]bool{}
+				var appends []*ssa.Call
+				var walk func(v ssa.Value)
+				walk = func(v ssa.Value) {
+					if v == nil || seen[v] {
+						return
+					}
+					seen[v] = true
+					switch x := v.(type) {
+					case *ssa.Phi:
+						for _, e := range x.Edges {
+							walk(e)
+						}
+					case *ssa.Call:
+						if bi, ok := x.Call.Value.(*ssa.Builtin); ok && bi.Name() == "append" {
+							appends = append(appends, x)
+							walk(x.Call.Args[0])
+						}
+					case *ssa.UnOp:
+						if al, ok := x.X.(*ssa.Alloc); ok {
+							for _, r := range *al.Referrers() {
+								if st, ok := r.(*ssa.Store); ok && st.Addr == ssa.Value(al) {
+									walk(st.Val)
+								}
+							}
+						}
+					}
+				}
+				walk(ia.X)
+				if len(appends) == 0 {
+					continue
+				}
+				local++
+				for _, ap := range appends {
+					l := inLoop(ap.Block())
+					if l == nil {
+						continue
+					}
+					// every back edge of the building loop must be dominated by the append
+					var header *ssa.BasicBlock
+					for hb := range l {
+						if header == nil || hb.Dominates(header) {
+							header = hb
+						}
+					}
+					for _, pred := range header.Preds {
+						if l[pred] && !ap.Block().Dominates(pred) {
+							bad = append(bad, fmt.Sprintf("%s: %s writes its children from a local list built by a loop that skips elements (the append at %s is not executed on every iteration): the skipped children disappear from the formatted text", c.P.Pos(ia.Pos()), fn.RelString(fn.Pkg.Pkg), c.P.Pos(ap.Pos())))
+						}
+					}
+				}
+			}
+		}
+	}
+	sort.Strings(bad)
+	o := c.R.Check(len(bad) == 0 && direct >= 5, rule, goctlAst+".Format#lists", "every loop of a Format method that writes a list of child nodes ranges over the node's own field, or over a local list to which every element was appended unconditionally", "-", strings.Join(bad, "; "), bad, direct+local)
+	o.Sites = direct + local
+}
+
+// isFieldChain: v is a load of (nested) fields rooted at the receiver.
+func isFieldChain(v ssa.Value, recv *ssa.Parameter) bool {
+	for d := 0; d < 8; d++ {
+		switch x := v.(type) {
+		case *ssa.UnOp:
+			v = x.X
+		case *ssa.FieldAddr:
+			v = x.X
+		case *ssa.Field:
+			v = x.X
+		case *ssa.Parameter:
+			return x == recv
+		default:
+			return false
+		}
+	}
+	return false
+}
+
+// c20tokens: in the parser methods that SYNTHESISE a token from several scanned tokens (a path such as
+// /api-v1/users, a service name foo-api: string concatenation of token texts, or a []token.Token joined later)
+// every token consumed is captured before the next one is consumed; a token stepped over without its
+// value being captured (p.curTok / p.curTok.Text read, or its node fetched) cannot be in the AST, so the
+// formatted text differs from the source (e.g. `/api-v1` re-emitted without its dash).
+func c20tokens(c *Ctx) {
+	rule := "C20.R6"
+	sp := c.P.SSAPkg(goctlParser)
+	if sp == nil {
+		c.R.Undecided(rule, goctlParser, "anchor resolves", "package not loaded")
+		return
+	}
+	storesCur := func(f *ssa.Function) bool {
+		for _, b := range f.Blocks {
+			for _, ins := range b.Instrs {
+				if st, ok := ins.(*ssa.Store); ok {
+					if fa, ok := st.Addr.(*ssa.FieldAddr); ok && fieldNameOf(fa) == "curTok" {
+						return true
+					}
+				}
+			}
+		}
+		return false
+	}
+	var nextFn *ssa.Function
+	var methods []*ssa.Function
+	for _, f := range c.P.AllFuncs(goctlParser) {
+		if f.Parent() != nil || recvName(f) != "Parser" {
+			continue
+		}
+		methods = append(methods, f)
+		if storesCur(f) {
+			if nextFn != nil {
+				c.R.Undecided(rule, goctlParser+"#advance", "exactly one method replaces the current token", "two methods store p.curTok: "+nextFn.Name()+", "+f.Name())
+				return
+			}
+			nextFn = f
+		}
+	}
+	if nextFn == nil {
+		c.R.Undecided(rule, goctlParser+"#advance", "anchor resolves", "no method stores p.curTok")
+		return
+	}
+	callsTo := func(f, g *ssa.Function) int {
+		n := 0
+		for _, b := range f.Blocks {
+			for _, ins := range b.Instrs {
+				if ci, ok := ins.(ssa.CallInstruction); ok && ci.Common().StaticCallee() == g {
+					n++
+				}
+			}
+		}
+		return n
+	}
+	// one-token advancers: the primitive and the bool wrappers that call it once and nothing else that advances
+	advancer := map[*ssa.Function]bool{nextFn: true}
+	mayAdvance := map[*ssa.Function]bool{nextFn: true}
+	for changed := true; changed; {
+		changed = false
+		for _, f := range methods {
+			if mayAdvance[f] {
+				continue
+			}
+			for g := range mayAdvance {
+				if callsTo(f, g) > 0 {
+					mayAdvance[f] = true
+					changed = true
+					break
+				}
+			}
+		}
+	}
+	for _, f := range methods {
+		if f == nextFn || callsTo(f, nextFn) != 1 {
+			continue
+		}
+		if r := f.Signature.Results(); r.Len() != 1 || !types.Identical(r.At(0).Type(), types.Typ[types.Bool]) {
+			continue
+		}
+		other := false
+		for g := range mayAdvance {
+			if g != nextFn && g != f && callsTo(f, g) > 0 {
+				other = true
+			}
+		}
+		if !other {
+			advancer[f] = true
+		}
+	}
+	// capturing readers: no advance, load p.curTok, return a token node
+	capturer := map[*ssa.Function]bool{}
+	for _, f := range methods {
+		if mayAdvance[f] || f.Signature.Results().Len() != 1 {
+			continue
+		}
+		if !strings.HasSuffix(f.Signature.Results().At(0).Type().String(), "ast.TokenNode") {
+			continue
+		}
+		for _, b := range f.Blocks {
+			for _, ins := range b.Instrs {
+				if fa, ok := ins.(*ssa.FieldAddr); ok && fieldNameOf(fa) == "curTok" {
+					capturer[f] = true
+				}
+			}
+		}
+	}
+	if len(advancer) < 2 || len(capturer) < 1 {
+		c.R.Undecided(rule, goctlParser+"#roles", "the one-token advancers and the token-node reader are recognised", fmt.Sprintf("%d advancers, %d readers", len(advancer), len(capturer)))
+		return
+	}
+	pairs, fns := 0, 0
+	for _, f := range methods {
+		if advancer[f] || !mayAdvance[f] {
+			continue
+		}
+		n := 0
+		for a := range advancer {
+			n += callsTo(f, a)
+		}
+		if n < 2 || !synthesises(f) {
+			continue
+		}
+		fns++
+		recv := f.Params[0]
+		ps := c.paths(rule, f, px.Config{MaxVisits: 2, MaxPaths: 200000, Keep: mayAdvance})
+		c.forall(rule, goctlParser+".(*Parser)."+f.Name(), "in a method that synthesises a token text from several scanned tokens, between two successive one-token advances the consumed token is captured (p.curTok or its Text read as a value, or its node fetched)", f, ps, func(p *px.Path) (bool, string) {
+			var pending *px.Event
+			for i := range p.Events {
+				e := &p.Events[i]
+				switch {
+				case e.Kind == px.EvCall && e.Call.Static != nil && advancer[e.Call.Static]:
+					if pending != nil {
+						pairs++
+						return false, fmt.Sprintf("the token consumed at %s is never captured before the next token is consumed: it is missing from the AST and from the formatted text", c.P.Pos(pending.Instr.Pos()))
+					}
+					pending = nil
+					if e.Res != nil && p.Abs(e.Res).K == px.True {
+						pending = e
+					}
+					if pending == nil {
+						pairs++
+					}
+				case e.Kind == px.EvCall && e.Call.Static != nil && (capturer[e.Call.Static] || mayAdvance[e.Call.Static]):
+					pending = nil
+				case e.Kind == px.EvCall && e.Call.Static == nil && e.Call.Builtin == "":
+					pending = nil // dynamic call: unknown
+				case e.Kind == px.EvLoad:
+					// p.curTok (whole token) or p.curTok.Text
+					a := e.Addr
+					isCur := func(x *px.Sym) bool {
+						return px.FieldAddrIs(x, "curTok", func(b *px.Sym) bool { return isParam(b, recv) })
+					}
+					if isCur(a) || (a.Kind == px.KFieldAddr && isCur(a.X) && px.FieldAddrIs(a, "Text", nil)) {
+						pending = nil
+					}
+				}
+			}
+			return true, ""
+		})
+	}
+	c.R.Extra["C20.R6_functions"] = fns
+	c.R.Min(rule, 3, "parser methods that synthesise a token from several scanned tokens")
+}
+
+// synthesises: the function concatenates token texts, or collects scanned tokens into a []token.Token.
+func synthesises(f *ssa.Function) bool {
+	isTok := func(t types.Type) bool {
+		n, ok := t.(*types.Named)
+		return ok && n.Obj().Name() == "Token" && n.Obj().Pkg() != nil && strings.HasSuffix(n.Obj().Pkg().Path(), "/token")
+	}
+	textOf := func(v ssa.Value) bool {
+		switch x := v.(type) {
+		case *ssa.UnOp:
+			if fa, ok := x.X.(*ssa.FieldAddr); ok && fieldNameOf(fa) == "Text" {
+				if pt, ok := fa.X.Type().Underlying().(*types.Pointer); ok && isTok(pt.Elem()) {
+					return true
+				}
+			}
+		case *ssa.Field:
+			if isTok(x.X.Type()) {
+				if st, ok := x.X.Type().Underlying().(*types.Struct); ok && st.Field(x.Field).Name() == "Text" {
+					return true
+				}
+			}
+		}
+		return false
+	}
+	for _, b := range f.Blocks {
+		for _, ins := range b.Instrs {
+			switch x := ins.(type) {
+			case *ssa.BinOp:
+				if x.Op == token.ADD && (textOf(x.X) || textOf(x.Y)) {
+					return true
+				}
+			case *ssa.Call:
+				if bi, ok := x.Call.Value.(*ssa.Builtin); ok && bi.Name() == "append" {
+					if sl, ok := x.Type().Underlying().(*types.Slice); ok && isTok(sl.Elem()) {
+						return true
+					}
+				}
+			}
+		}
+	}
+	return false
+}
+
+// c20index: no parser/scanner path indexes a slice that is nil on that path (a list that received no element on
+// this path, e.g. the path tokens of a route written without a path) — an index panic is a crash, not an error.
+func c20index(c *Ctx) {
+	rule := "C20.R2b"
+	n := 0
+	for _, f := range c.P.AllFuncs(goctlParser) {
+		if f.Parent() != nil || recvName(f) != "Parser" || !strings.HasPrefix(f.Name(), "parse") {
+			continue
+		}
+		has := false
+		for _, b := range f.Blocks {
+			for _, ins := range b.Instrs {
+				if ia, ok := ins.(*ssa.IndexAddr); ok {
+					if _, isSl := ia.X.Type().Underlying().(*types.Slice); isSl {
+						if _, isC := ia.Index.(*ssa.Const); isC {
+							has = true
+						}
+					}
+				}
+			}
+		}
+		if !has {
+			continue
+		}
+		n++
+		ps := c.paths(rule, f, px.Config{MaxVisits: 2, MaxPaths: 200000})
+		c.forall(rule, goctlParser+".(*Parser)."+f.Name(), "a constant index is applied only to a list that holds an element on that path (invalid input is answered with an error, not an index panic)", f, ps, func(p *px.Path) (bool, string) {
+			for i := range p.Events {
+				e := &p.Events[i]
+				if e.Kind != px.EvLoad && e.Kind != px.EvStore {
+					continue
+				}
+				for a := e.Addr; a != nil; a = a.X {
+					if a.Kind == px.KIndexAddr && a.Index >= 0 && a.X != nil {
+						if _, isSl := a.X.Typ.Underlying().(*types.Slice); isSl && (px.IsNilConst(a.X) || p.Abs(a.X).K == px.Nil) {
+							return false, fmt.Sprintf("element %d of a list that is still nil on this path is read at %s: the parser panics (index out of range) instead of reporting a syntax error", a.Index, c.P.Pos(e.Instr.Pos()))
+						}
+					}
+					if a.Kind != px.KFieldAddr && a.Kind != px.KIndexAddr {
+						break
+					}
+				}
+			}
+			return true, ""
+		})
+	}
+	c.R.Min(rule, 1, "parse* methods applying a constant index to a slice")
 }
